@@ -285,29 +285,9 @@ def classify_exc(e: BaseException) -> str:
     return f"fail:other:{type(e).__name__}:{m[:60]}"
 
 
-def run_op(dbpath: str, op: dict, now: int, workdir: str, k=None, mode="raise") -> tuple[str, list]:
-    """run one operation of the real class; returns (outcome, script)"""
-    from pathlib import Path
-
-    tofu, shim = instrument()
+def apply_op(db, op: dict, args) -> str:
+    """one operation on an existing store object; returns the outcome"""
     kind = op["kind"]
-    _Clock.value = now
-    args = None
-    if kind == "import":
-        args = (Path(write_import_file(workdir, op)), op["merge"], make_callback(op))
-    if kind == "init":
-        shim.reset(k, mode)
-        try:
-            tofu.TOFUDatabase(Path(dbpath))
-            out = "ok"
-        except Exception as e:
-            out = classify_exc(e)
-        script = list(shim.script)
-        shim.reset()
-        return out, script
-    shim.reset()
-    db = tofu.TOFUDatabase(Path(dbpath))
-    shim.reset(k, mode)
     try:
         if kind == "trust":
             db.trust(op["host"], op["port"], fp_str(op["fp"]))
@@ -331,6 +311,34 @@ def run_op(dbpath: str, op: dict, now: int, workdir: str, k=None, mode="raise") 
             raise RuntimeError("unknown op " + kind)
     except (Exception, CbInterrupt) as e:
         out = classify_exc(e)
+    return out
+
+
+def run_op(dbpath: str, op: dict, now: int, workdir: str, k=None, mode="raise", db=None) -> tuple[str, list]:
+    """run one operation of the real class (on a fresh store object, or on `db`); returns (outcome, script)"""
+    from pathlib import Path
+
+    tofu, shim = instrument()
+    kind = op["kind"]
+    _Clock.value = now
+    args = None
+    if kind == "import":
+        args = (Path(write_import_file(workdir, op)), op["merge"], make_callback(op))
+    if kind == "init":
+        shim.reset(k, mode)
+        try:
+            tofu.TOFUDatabase(Path(dbpath))
+            out = "ok"
+        except Exception as e:
+            out = classify_exc(e)
+        script = list(shim.script)
+        shim.reset()
+        return out, script
+    shim.reset()
+    if db is None:
+        db = tofu.TOFUDatabase(Path(dbpath))
+    shim.reset(k, mode)
+    out = apply_op(db, op, args)
     script = list(shim.script)
     shim.reset()
     return out, script
@@ -644,6 +652,458 @@ class Kill(TxnFamily):
     thorough_n = 6000
 
 
+# ----------------------------------------------------------------------------------------------
+# family `session`: several operations on ONE store object
+# ----------------------------------------------------------------------------------------------
+def own_rows(db):
+    """the store as the application reads it through this very object (list_hosts)"""
+    _, shim = instrument()
+    shim.reset()
+    try:
+        hosts = db.list_hosts()
+    except Exception as e:  # noqa: BLE001
+        return [["!" + type(e).__name__, 0, 0, 0, 0]]
+    finally:
+        shim.reset()
+    return sorted([h["hostname"], h["port"], fp_id(h["fingerprint"]), t_id(h["first_seen"]), t_id(h["last_seen"])] for h in hosts)
+
+
+def gen_step(rng: random.Random, known: list, hosts) -> dict:
+    """one operation for a session; `known` = rows the store may hold by now (initial rows + what earlier steps named)"""
+    r = rng.random()
+    if r < 0.45:
+        kind = rng.choice(["trust", "verify", "verify", "verify", "revoke", "revokehost", "clear", "trust"])
+        if known and rng.random() < 0.75:
+            row = rng.choice(known)
+            h, p, fp = row[0], row[1], (row[2] if rng.random() < 0.6 else rng.randint(1, 8))
+        else:
+            h, p, fp = rng.choice(hosts), rng.choice(PORTS), rng.randint(1, 8)
+        op = {"kind": kind}
+        if kind in ("trust", "verify"):
+            op.update(host=h, port=p, fp=fp)
+        elif kind == "revoke":
+            op.update(host=h, port=p)
+        elif kind == "revokehost":
+            op.update(host=h)
+        return op
+    merge = rng.random() < 0.5
+    entries = [good_entry(rng, known, hosts) for _ in range(rng.choice([0, 1, 2, 3, 4, 5]))]
+    if rng.random() < 0.25 and entries:
+        d = dict(rng.choice(entries))
+        d["fp"] = rng.randint(1, 8)
+        d.pop("fpraw", None)
+        entries.insert(rng.randint(0, len(entries)), d)
+    cbr = rng.random()
+    cb = None if cbr < 0.35 else "".join(rng.choice("usrk" if cbr > 0.6 else "us") for _ in range(len(entries) + 2))
+    op = {"kind": "import", "merge": merge, "entries": entries, "cb": cb}
+    d = rng.random()
+    if d < 0.45:
+        bad = make_defect(rng, good_entry(rng, known, hosts), rng.choice(["missing", "badfp", "badport", "notable", "missing", "badport"]))
+        entries.insert(rng.randint(0, len(entries)), bad)       # the defect at any position: before it, entries have been written
+    elif d < 0.52:
+        op["file"] = rng.choice(FILE_DEFECTS)
+    return op
+
+
+class Session(Family):
+    """histories: 2..6 operations through one long-lived TOFUDatabase object (a client session, a GUI, the `tofu` commands of one
+    process) - or, for comparison, a fresh object per operation - some of them failing (defective import file, raising conflict
+    callback, injected SQL error at a statement boundary).  After every step the table is read from the file by an independent
+    connection AND through the object itself.  A step of the history is compared with the model (`txn` on the state observed
+    before it)."""
+    name = "session"
+    quick_n = 1200
+    thorough_n = 20000
+    model_from_obs = True
+
+    def gen(self, rng, n):
+        fixed = []
+        st = [["a", 1965, 1, 10, 10], ["b.example", 1965, 2, 20, 20], ["::1", 1966, 3, 30, 30]]
+        bad_tail = [{"host": "x", "port": 1965, "fp": 7, "first": 70}, {"host": "a", "port": 1965, "fp": 9, "first": 71}, {"host": "y", "port": 0, "fp": 8, "first": 80}]
+        for merge in (True, False):
+            for nxt in ({"kind": "verify", "host": "b.example", "port": 1965, "fp": 2}, {"kind": "trust", "host": "new", "port": 1965, "fp": 5},
+                        {"kind": "revoke", "host": "::1", "port": 1966}, {"kind": "clear"},
+                        {"kind": "import", "merge": True, "entries": [{"host": "z", "port": 1965, "fp": 4, "first": 40}], "cb": None}):
+                for cb in (None, "uuu"):
+                    fixed.append({"store": st, "reuse": True, "probe": 1,
+                                  "steps": [{"op": {"kind": "import", "merge": merge, "entries": bad_tail, "cb": cb}, "now": 500}, {"op": nxt, "now": 510}]})
+        # a callback that raises at the third entry, an injected SQL error in the middle of an import, then ordinary use
+        fixed.append({"store": st, "reuse": True, "probe": 1,
+                      "steps": [{"op": {"kind": "import", "merge": True, "entries": bad_tail[:2] + [{"host": "b.example", "port": 1965, "fp": 6, "first": 72}], "cb": "uur"}, "now": 500},
+                                {"op": {"kind": "verify", "host": "::1", "port": 1966, "fp": 3}, "now": 510}]})
+        fixed.append({"store": st, "reuse": True, "probe": 1,
+                      "steps": [{"op": {"kind": "import", "merge": False, "entries": bad_tail[:2], "cb": "uu"}, "now": 500, "fault": 3},
+                                {"op": {"kind": "verify", "host": "::1", "port": 1966, "fp": 3}, "now": 510}]})
+        count = 0
+        for c in self.share(fixed):
+            yield c
+            count += 1
+        while count < n:
+            store = gen_store(rng)
+            hosts = HOSTS if rng.random() < 0.5 else HOSTS[:6]
+            known = [list(r) for r in store]
+            steps, now = [], rng.randint(401, 500)
+            for _ in range(rng.choice([2, 2, 3, 3, 4, 6])):
+                op = gen_step(rng, known, hosts)
+                now += rng.randint(1, 60)
+                step = {"op": op, "now": now}
+                if rng.random() < 0.15:
+                    step["fault"] = rng.choice([0, 1, 2, 2, 3, 4, 6])      # an SQL error at this statement boundary of the step (if it has that many)
+                steps.append(step)
+                if op["kind"] in ("trust",):
+                    known.append([op["host"], op["port"], op["fp"], now, now])
+                elif op["kind"] == "import":
+                    known += [[e["host"], e["port"], e["fp"], e.get("first", 1), now] for e in op["entries"]
+                              if isinstance(e.get("port"), int) and not isinstance(e.get("port"), bool) and isinstance(e.get("host"), str) and "fp" in e]
+            yield {"store": store, "steps": steps, "reuse": rng.random() < 0.8, "probe": rng.randrange(len(steps))}
+            count += 1
+
+    def impl(self, case):
+        from pathlib import Path
+
+        tofu, shim = instrument()
+        d = tempfile.mkdtemp(prefix="nv-")
+        try:
+            path = os.path.join(d, "tofu.db")
+            make_db(path, case["store"])
+            shim.reset()
+            db = tofu.TOFUDatabase(Path(path)) if case["reuse"] else None
+            file_views = [read_rows(path)]
+            own_views = [own_rows(db) if db is not None else file_views[0]]
+            outcomes, fired, alone = [], [], []
+            for i, step in enumerate(case["steps"]):
+                w = os.path.join(d, f"w{i}")
+                os.mkdir(w)
+                cur = db if db is not None else tofu.TOFUDatabase(Path(path))
+                k = step.get("fault")
+                cp = os.path.join(d, f"alone{i}.db")
+                if k is not None:
+                    shutil.copy(path, cp)             # the (committed) state this step starts from
+                out, script = run_op(path, step["op"], step["now"], w, k, "raise", db=cur)
+                outcomes.append(out)
+                fired.append(out == "fault")
+                file_views.append(read_rows(path))
+                own_views.append(own_rows(cur))
+                if out == "fault":
+                    # what the step does when nothing interferes: the same operation on the copy
+                    wa = os.path.join(d, f"wa{i}")
+                    os.mkdir(wa)
+                    run_op(cp, step["op"], step["now"], wa)
+                    alone.append(read_rows(cp))
+                else:
+                    alone.append(None)
+            del db, cur
+            obs = {"file": file_views, "own": own_views, "outcomes": outcomes, "fired": fired, "alone": alone}
+            obs["probe"] = self._probe(case, obs)
+            return obs
+        finally:
+            shutil.rmtree(d, ignore_errors=True)
+
+    # ---- model: one step of the history, from the state observed before it ------------------
+    def _probe(self, case, obs):
+        outs = obs["outcomes"]
+        for i in range(1, len(outs)):
+            if outs[i - 1].startswith("fail") or outs[i - 1] == "fault":
+                return i                                   # the step that follows a failed one
+        return case.get("probe", 0) % max(len(outs), 1)
+
+    def model_obs(self, case, obs):
+        j = obs["probe"]
+        before = obs["file"][j]
+        if any(r[2] >= 2 ** 256 or r[3] >= 10 ** 9 or r[4] >= 10 ** 9 for r in before):
+            return None
+        step = case["steps"][j]
+        k = str(step["fault"]) if obs["fired"][j] else "all"
+        return "\t".join(["txn", enc_store(before), op_model(step["op"], step["now"]), k])
+
+    def expect(self, case, out):
+        if not out.startswith("ok "):
+            return {"model": out}
+        _, st, _script, outcome = out.split(" ")
+        return {"after": dec_store(st), "outcome": outcome}
+
+    def same(self, expected, obs):
+        if "after" not in expected:
+            return False
+        j = obs["probe"]
+        return obs["file"][j + 1] == expected["after"] and (obs["fired"][j] or obs["outcomes"][j] == expected["outcome"])
+
+    # ---- the property ------------------------------------------------------------------------
+    def oracle(self, case, obs):
+        steps = case["steps"]
+        how = "one store object" if case["reuse"] else "a fresh store object per step"
+        for view, label in ((obs["file"], "the file"), (obs["own"], "the store as listed through the object")):
+            hist = []
+            for i, step in enumerate(steps):
+                op, out = step["op"], obs["outcomes"][i]
+                what = op["kind"] + (("-merge" if op["merge"] else "-replace") if op["kind"] == "import" else "")
+                hist.append(f"{what}{'' if out.startswith('ok') else ' -> ' + out}")
+                where = f"step {i + 1} of [{'; '.join(hist)}] on {how}"
+                b, a = view[i], view[i + 1]
+                if out.startswith("fail") and a != b:
+                    return ("failed-op-changed-store", f"{where}: {what} raised ({out}) but {label} changed: before {b!r}, after {a!r}")
+                if out == "fault" and a != b and a != obs["alone"][i]:
+                    return ("crash-not-atomic", f"{where}: an SQL error at statement boundary {step.get('fault')} of {what} left {label} neither as before nor "
+                            f"as after: {a!r} (before {b!r}, after the undisturbed operation {obs['alone'][i]!r})")
+                bb = {(r[0], r[1]): r for r in b if not named(op, r[0], r[1])}
+                aa = {(r[0], r[1]): r for r in a if not named(op, r[0], r[1])}
+                if aa != bb:
+                    return ("frame", f"{where}: {what} ({out}) altered rows of hosts it does not name in {label}: {sorted(bb.values())!r} -> {sorted(aa.values())!r}")
+        return None
+
+    def key(self, case, obs):
+        outs = obs["outcomes"]
+        cls = "".join("F" if o.startswith("fail") else "X" if o == "fault" else "." for o in outs)
+        after_fail = any(cls[i - 1] in "FX" and cls[i] == "." for i in range(1, len(cls)))
+        return f"steps={cls} reuse={int(case['reuse'])} ok-after-fail={int(after_fail)}"
+
+
+# ----------------------------------------------------------------------------------------------
+# family `bulk`: large stores and large import files (thousands of hosts, megabytes), crash at a late boundary
+# ----------------------------------------------------------------------------------------------
+def bulk_name(salt: int, tag: str, i: int, length: int) -> str:
+    """a host name of `length` characters (DNS allows 253), spread evenly over the key space"""
+    h = hashlib.sha256(f"{salt}:{tag}:{i}".encode()).hexdigest()
+    body = (h * (length // 64 + 1))[: max(length - 8, 1)]
+    return ".".join(body[j:j + 60] for j in range(0, len(body), 60)) [: max(length - 8, 1)] + ".example"
+
+
+def bulk_store(case: dict) -> list:
+    b = case["bulk"]
+    rows = [[h, 1965, i + 1, 10 + i, 20 + i] for i, h in enumerate(HOSTS[: min(b["store_n"], 12)])]
+    rows += [[bulk_name(b["salt"], "old", i, b["store_len"]), 1965 + i % 3, 100 + i, 10 + i % 300, 20 + i % 300] for i in range(max(b["store_n"] - len(rows), 0))]
+    return rows
+
+
+def bulk_op(case: dict) -> dict:
+    """the operation of a bulk case, written out (the case itself only holds the parameters)"""
+    b = case["bulk"]
+    if b["kind"] == "clear":
+        return {"kind": "clear"}
+    store = bulk_store(case)
+    entries = []
+    cb = []
+    for i in range(b["n"]):
+        if store and i % 97 == 96:
+            row = store[(i // 97) % len(store)]           # an existing host, another fingerprint: the callback is asked
+            entries.append({"host": row[0], "port": row[1], "fp": row[2] + 100000, "first": 300})
+        else:
+            entries.append({"host": bulk_name(b["salt"], "new", i, b["len"]), "port": 1965, "fp": 1000 + i, "first": 70 + i % 300})
+        cb.append("u" if i % 2 else "s")
+    if b["tail"] == "badport":
+        entries.append({"host": "last.example", "port": 0, "fp": 5, "first": 70})
+        cb.append("s")
+    elif b["tail"] == "badfp":
+        entries.append({"host": "last.example", "port": 1965, "fpraw": "sha256:xyz", "first": 70})
+        cb.append("s")
+    elif b["tail"] == "cbraise" and store:
+        entries.append({"host": store[0][0], "port": store[0][1], "fp": 999999, "first": 70})
+        cb.append("r")
+    return {"kind": "import", "merge": b["merge"], "entries": entries, "cb": "".join(cb) + "s"}
+
+
+def read_rows_safe(path: str):
+    """(rows, error): a store file that SQLite can no longer read is an observation, not a harness failure"""
+    import sqlite3
+
+    try:
+        return read_rows(path), None
+    except sqlite3.DatabaseError as e:
+        return [], f"{type(e).__name__}: {e}"
+
+
+def summary(rows: list, before: list) -> dict:
+    """a large table in few words: size, digest, and how it differs from `before`"""
+    bset, rset = {json_key(r) for r in before}, {json_key(r) for r in rows}
+    lost = [r for r in before if json_key(r) not in rset]
+    extra = [r for r in rows if json_key(r) not in bset]
+    return {"n": len(rows), "sha": hashlib.sha1(repr(rows).encode()).hexdigest()[:16], "lost_n": len(lost), "extra_n": len(extra),
+            "lost": [[r[0][:40]] + r[1:] for r in lost[:3]], "extra": [[r[0][:40]] + r[1:] for r in extra[:3]]}
+
+
+def json_key(r) -> tuple:
+    return (r[0], r[1], r[2], r[3], r[4])
+
+
+class Bulk(Family):
+    """Stores and import files of thousands of hosts (names up to the 253 characters DNS allows): transactions of several
+    megabytes.  One case = one operation, run to its end once and once more with the fault at ONE late statement boundary
+    (`at` = fraction of the script; 1.0 = just before the commit): the process is killed there (or an SQL error is injected),
+    the file is reopened, the table read back, and every pin of the old store is looked up through a fresh store object."""
+    name = "bulk"
+    quick_n = 16
+    thorough_n = 192
+    model_from_obs = True
+
+    FIXED = [
+        {"kind": "import", "merge": True, "n": 4000, "len": 253, "store_n": 400, "store_len": 40, "tail": "ok", "at": 1.0, "mode": "exit"},
+        {"kind": "import", "merge": False, "n": 4000, "len": 253, "store_n": 400, "store_len": 40, "tail": "ok", "at": 1.0, "mode": "exit"},
+        {"kind": "import", "merge": True, "n": 6000, "len": 120, "store_n": 50, "store_len": 120, "tail": "cbraise", "at": 1.0, "mode": "exit"},
+        {"kind": "import", "merge": True, "n": 3000, "len": 253, "store_n": 2000, "store_len": 200, "tail": "badport", "at": 0.97, "mode": "exit"},
+        {"kind": "clear", "merge": True, "n": 0, "len": 0, "store_n": 6000, "store_len": 253, "tail": "ok", "at": 1.0, "mode": "exit"},
+        {"kind": "import", "merge": False, "n": 5000, "len": 200, "store_n": 3000, "store_len": 253, "tail": "ok", "at": 0.9, "mode": "exit"},
+        {"kind": "import", "merge": True, "n": 4000, "len": 253, "store_n": 400, "store_len": 40, "tail": "badfp", "at": 1.0, "mode": "raise"},
+        {"kind": "import", "merge": True, "n": 12000, "len": 30, "store_n": 400, "store_len": 30, "tail": "ok", "at": 1.0, "mode": "exit"},
+    ]
+
+    def gen(self, rng, n):
+        count = 0
+        for i, b in self.share(list(enumerate(self.FIXED))):
+            yield {"bulk": dict(b, salt=i), "now": 500}
+            count += 1
+        while count < n:
+            kind = "clear" if rng.random() < 0.12 else "import"
+            ln = rng.choice([12, 60, 150, 253, 253])
+            # between a few hundred kilobytes and ~8 MB of rows
+            target = rng.choice([200_000, 800_000, 2_000_000, 3_000_000, 5_000_000, 8_000_000])
+            nrows = max(50, min(target // (2 * ln + 130), 15000))
+            b = {"kind": kind, "merge": rng.random() < 0.5, "n": 0 if kind == "clear" else nrows, "len": ln,
+                 "store_n": nrows if kind == "clear" else rng.choice([0, 5, 50, 400, 400, 2000]), "store_len": rng.choice([20, 40, 120, 253]) if kind != "clear" else ln,
+                 "tail": rng.choice(["ok", "ok", "ok", "badport", "badfp", "cbraise"]), "at": rng.choice([1.0, 1.0, 1.0, 0.99, 0.9, 0.6, 0.3]),
+                 "mode": "exit" if rng.random() < 0.8 else "raise", "salt": rng.randrange(10 ** 6)}
+            yield {"bulk": b, "now": rng.randint(401, 900)}
+            count += 1
+
+    def impl(self, case):
+        from pathlib import Path
+
+        b = case["bulk"]
+        store, op = bulk_store(case), bulk_op(case)
+        d = tempfile.mkdtemp(prefix="nv-")
+        try:
+            base = os.path.join(d, "base.db")
+            make_db(base, store)
+            before = read_rows(base)
+            work = os.path.join(d, "work.db")
+            shutil.copy(base, work)
+            w0 = os.path.join(d, "w")
+            os.mkdir(w0)
+            outcome, script = run_op(work, op, case["now"], w0)
+            complete = read_rows(work)
+            n = len(script)
+            k = min(int(b["at"] * n), n - 1)
+            for f in os.listdir(d):
+                if f.startswith("work.db"):
+                    os.unlink(os.path.join(d, f))
+            shutil.copy(base, work)
+            wk = os.path.join(d, "wk")
+            os.mkdir(wk)
+            if b["mode"] == "raise":
+                fo, _ = run_op(work, op, case["now"], wk, k, "raise")
+            else:
+                pid = os.fork()
+                if pid == 0:
+                    try:
+                        run_op(work, op, case["now"], wk, k, "exit")
+                    finally:
+                        os._exit(0)
+                _, st = os.waitpid(pid, 0)
+                fo = "killed" if os.WIFEXITED(st) and os.WEXITSTATUS(st) == 9 else f"child-status-{st}"
+            left = sorted(f for f in os.listdir(d) if f.startswith("work.db") and f != "work.db")
+            crash, err = read_rows_safe(work)
+            # every pin of the old store, looked up the way a client does (a fresh store object, get_host_info)
+            tofu, shim = instrument()
+            shim.reset()
+            missing = []
+            if err is None and crash != complete:
+                try:
+                    db = tofu.TOFUDatabase(Path(work))
+                    for r in before:
+                        info = db.get_host_info(r[0], r[1])
+                        if info is None or fp_id(info["fingerprint"]) != r[2]:
+                            missing.append([r[0][:40], r[1]])
+                except Exception as e:  # noqa: BLE001
+                    err = f"{type(e).__name__}: {e}"
+            shim.reset()
+            state = "unreadable" if err else "before" if crash == before else "complete" if crash == complete else "other"
+            return {"before_n": len(before), "script_n": n, "k": k, "outcome": outcome.split(",")[0] if outcome.startswith("ok:") else outcome, "fault": fo,
+                    "complete": summary(complete, before), "crash": summary(crash, before), "state": state, "error": err,
+                    "lookup_missing": len(missing), "lookup_sample": missing[:3], "journal_left": left}
+        finally:
+            shutil.rmtree(d, ignore_errors=True)
+
+    def model_obs(self, case, obs):
+        return "\t".join(["txn", enc_store(bulk_store(case)), op_model(bulk_op(case), case["now"]), str(obs["k"])])
+
+    def expect(self, case, out):
+        if not out.startswith("ok "):
+            return {"model": out[:200]}
+        st = out.split(" ", 2)[1]
+        before = sorted([list(r) for r in bulk_store(case)])
+        return {"crash": summary(dec_store(st), before)}
+
+    def same(self, expected, obs):
+        return expected.get("crash") == obs.get("crash")
+
+    def oracle(self, case, obs):
+        b = case["bulk"]
+        what = (f"import-{'merge' if b['merge'] else 'replace'} of {b['n']} hosts (names of {b['len']} characters, tail {b['tail']})" if b["kind"] == "import"
+                else "clear") + f" on a store of {obs['before_n']} hosts"
+        how = (f"process killed at statement boundary {obs['k']} of {obs['script_n']}" if b["mode"] == "exit" else f"SQL error at statement boundary {obs['k']} of {obs['script_n']}")
+        if obs["outcome"].startswith("fail") and obs["complete"]["lost_n"] + obs["complete"]["extra_n"] > 0:
+            return ("failed-op-changed-store", f"{what} raised ({obs['outcome']}) but the store changed: {obs['complete']['lost_n']} old rows gone or altered "
+                    f"(e.g. {obs['complete']['lost']!r}), {obs['complete']['extra_n']} new (e.g. {obs['complete']['extra']!r})")
+        if obs["state"] == "unreadable":
+            return ("crash-store-unreadable", f"{what}, {how}: the store file can no longer be read ({obs['error']})")
+        if obs["state"] == "other":
+            c = obs["crash"]
+            return ("crash-not-atomic", f"{what}, {how}, store reopened: neither as before nor as after the operation - {c['n']} hosts; {c['lost_n']} of the old rows "
+                    f"are gone or altered (e.g. {c['lost']!r}), {c['extra_n']} rows of the unfinished operation are present (e.g. {c['extra']!r}); "
+                    f"{obs['lookup_missing']} of the {obs['before_n']} old pins are not found by get_host_info() any more")
+        if obs["state"] == "before" and obs["lookup_missing"]:
+            return ("crash-lost-pins", f"{what}, {how}, store reopened: the table lists the old rows, but {obs['lookup_missing']} of the {obs['before_n']} old pins are not found by "
+                    f"get_host_info() any more (e.g. {obs['lookup_sample']!r}): those hosts are back to first use")
+        return None
+
+    def key(self, case, obs):
+        b = case["bulk"]
+        size = (b["n"] * (2 * b["len"] + 130) + 0) if b["kind"] == "import" else b["store_n"] * (2 * b["store_len"] + 130)
+        return (f"{b['kind']}{':merge' if b['merge'] and b['kind'] == 'import' else ':replace' if b['kind'] == 'import' else ''} tail={b['tail']} {b['mode']} "
+                f"~{'<1' if size < 1e6 else '1-2' if size < 2e6 else '2-4' if size < 4e6 else '>4'}MB at={b['at']} {obs['outcome'][:12]} state={obs['state']}")
+
+
+def store_child_env(name: str) -> str:
+    from ..sim import store_child
+
+    if name.startswith("locale:"):
+        return f"LC_ALL={name[7:]} PYTHONUTF8=0 PYTHONCOERCECLOCALE=0"
+    return " ".join(f"{k}={v}" for k, v in sorted(store_child.ENVIRONMENTS[name].items()) if k != "LANG")
+
+
+def roundtrip_here(case: dict) -> dict:
+    """build the store, export it, import the file into an empty store - in this process, in whatever environment it runs"""
+    from pathlib import Path
+
+    tofu, shim = instrument()
+    shim.reset()
+    d = tempfile.mkdtemp(prefix="nv-")
+    try:
+        db = tofu.TOFUDatabase(Path(d) / "a.db")
+        for h, p, fp, f, l in case["rows"]:
+            _Clock.value = f
+            db.trust(h, p, fp_str(fp))
+            if l != f:
+                _Clock.value = l
+                db.verify(h, p, fp_str(fp))
+        rows1 = read_rows(os.path.join(d, "a.db"))
+        out = Path(d) / "export.toml"
+        try:
+            _Clock.value = case["now"]
+            n = db.export_toml(out)
+            import tomllib
+
+            with open(out, "rb") as fh:
+                keys = sorted(tomllib.load(fh).get("hosts", {}).keys())
+            db2 = tofu.TOFUDatabase(Path(d) / "b.db")
+            ret = list(db2.import_toml(out, merge=True))
+        except Exception as e:
+            return {"rows1": rows1, "error": f"{type(e).__name__}: {str(e)[:120]}"}
+        rows2 = read_rows(os.path.join(d, "b.db"))
+        return {"rows1": rows1, "rows2": rows2, "ret": ret, "exported": n, "keys": keys}
+    finally:
+        shutil.rmtree(d, ignore_errors=True)
+
+
 class RoundTrip(Family):
     name = "roundtrip"
     quick_n = 400
@@ -656,6 +1116,14 @@ class RoundTrip(Family):
         # pairs that collide under plausible non-injective key formats (no separator, port dropped, host lower-cased, separator not last)
         yield {"rows": [["a1", 965, 1, 10, 10], ["a", 1965, 2, 20, 20], ["A", 1965, 3, 30, 30], ["a:19", 65, 4, 40, 40], ["a", 65, 5, 50, 50],
                         ["a", 19, 6, 60, 60], ["a:19:65", 1, 7, 70, 70]], "now": 903}
+        # the process environment of `tofu export` / `tofu import`: the same stores, in interpreters started under other locales
+        from ..sim import store_child
+
+        envs = store_child.available()
+        fixed = [{"rows": [[h, 1965, i + 1, 10 + i, 20 + i] for i, h in enumerate(hs)], "now": 904, "env": e}
+                 for e in envs for hs in (HOSTS, ["example.com", "ünï.çödé"], ["日本語.jp"], ["plain.example", "a"])]
+        for c in self.share(fixed):
+            yield c
         for _ in range(max(0, n - 4)):
             rows, keys = [], set()
             for _ in range(rng.choice([1, 2, 3, 5, 8, 12])):
@@ -673,39 +1141,27 @@ class RoundTrip(Family):
                 keys.add((h, p))
                 f = rng.randint(1, 400)
                 rows.append([h, p, rng.randint(1, 10 ** 9), f, f + rng.choice([0, 7])])
-            yield {"rows": rows, "now": rng.randint(401, 999)}
+            case = {"rows": rows, "now": rng.randint(401, 999)}
+            if rng.random() < 0.1:
+                case["env"] = rng.choice(envs)
+            yield case
 
     def impl(self, case):
-        from pathlib import Path
+        env = case.get("env")
+        if env is None:
+            return roundtrip_here(case)
+        # the whole round trip in an interpreter started in that environment
+        from ..sim import store_child
 
-        tofu, shim = instrument()
-        shim.reset()
         d = tempfile.mkdtemp(prefix="nv-")
         try:
-            db = tofu.TOFUDatabase(Path(d) / "a.db")
-            for h, p, fp, f, l in case["rows"]:
-                _Clock.value = f
-                db.trust(h, p, fp_str(fp))
-                if l != f:
-                    _Clock.value = l
-                    db.verify(h, p, fp_str(fp))
-            rows1 = read_rows(os.path.join(d, "a.db"))
-            out = Path(d) / "export.toml"
-            try:
-                _Clock.value = case["now"]
-                n = db.export_toml(out)
-                import tomllib
-
-                with open(out, "rb") as fh:
-                    keys = sorted(tomllib.load(fh).get("hosts", {}).keys())
-                db2 = tofu.TOFUDatabase(Path(d) / "b.db")
-                ret = list(db2.import_toml(out, merge=True))
-            except Exception as e:
-                return {"rows1": rows1, "error": f"{type(e).__name__}: {str(e)[:120]}"}
-            rows2 = read_rows(os.path.join(d, "b.db"))
-            return {"rows1": rows1, "rows2": rows2, "ret": ret, "exported": n, "keys": keys}
+            obs = store_child.run({"env": env, "do": "roundtrip", "case": {k: v for k, v in case.items() if k != "env"}}, d)
         finally:
             shutil.rmtree(d, ignore_errors=True)
+        return obs
+
+    def same(self, expected, obs):
+        return "model" not in expected and all(expected.get(k) == obs.get(k) for k in ("rows1", "rows2", "ret", "exported", "keys")) and "error" not in obs
 
     def model(self, case):
         return "\t".join(["roundtrip", enc_store(case["rows"]), str(case["now"])])
@@ -719,14 +1175,15 @@ class RoundTrip(Family):
         return {"rows1": rows1, "rows2": dec_store(st), "ret": [len(rows1), 0, 0], "exported": len(rows1), "keys": ks}
 
     def oracle(self, case, obs):
+        where = "" if case.get("env") is None else f" in a process started with {store_child_env(case['env'])} (default text encoding {obs.get('locale_encoding', '?')})"
         if "error" in obs:
-            return ("roundtrip-raises", f"export/import of {[r[0] for r in obs['rows1']]!r} raised {obs['error']}")
+            return ("roundtrip-raises", f"export then import into an empty store{where} raised {obs['error']}; hosts in the store: {[r[0] for r in obs['rows1']]!r}")
         a = sorted(r[:4] for r in obs["rows1"])
         b = sorted(r[:4] for r in obs["rows2"])
         if a != b:
             lost = [r for r in a if r not in b]
             new = [r for r in b if r not in a]
-            return ("roundtrip-differs", f"export then import into an empty store lost {lost!r} and produced {new!r}")
+            return ("roundtrip-differs", f"export then import into an empty store{where} lost {lost!r} and produced {new!r}")
         return None
 
     def key(self, case, obs):
@@ -742,7 +1199,8 @@ class RoundTrip(Family):
             cls.append("control")
         if any(c in "[]=#{}" for h in hs for c in h):
             cls.append("tomlmeta")
-        return f"n={min(len(hs), 9)} {'+'.join(cls) or 'plain'} {'error' if 'error' in obs else 'ok'}"
+        env = "" if case.get("env") is None else f" env={case['env']}/{obs.get('locale_encoding', '?')}"
+        return f"n={min(len(hs), 9)} {'+'.join(cls) or 'plain'} {'error' if 'error' in obs else 'ok'}{env}"
 
 
-FAMILIES = [Fault(), Kill(), RoundTrip()]
+FAMILIES = [Fault(), Kill(), Session(), Bulk(), RoundTrip()]
